@@ -82,7 +82,8 @@ Definition family_outcome (f : nfam) (n : Z) : outcome :=
    - an assignment to a field of a call result  f(function() ... end).x = 1: ASSIGN_CALLIDX_PARSES
      (1 with `Assign / call`, 2 with the repaired order: the call alternative parses everything, its
      lookahead fails, Assign parses again);
-   - a macro call  m!(m!(...)): MACRO_PREFIX_PARSES (2 with ppcallprim's `&callsuffix` lookahead). *)
+   - a macro call  m!(m!(...)): MACRO_PREFIX_PARSES (2 with ppcallprim's `&callsuffix` lookahead, which parses
+     the arguments before exprsuffixed parses them again; 1 with the repaired token lookahead). *)
 Fixpoint work (k : Z) (n : nat) : Z :=
   match n with O => 1 | S n' => 1 + k * work k n' end.
 Definition parse_work_call := work CALL_PREFIX_PARSES.
